@@ -220,7 +220,7 @@ pub fn run(ctx: &Ctx, stats: &mut Stats) {
     run_exhaustive(ctx, stats, "exh-0..15<=4", all_strings(&[0, 1, 2, 3, 4, 5, 6, 7, 8, 9, 10, 11, 12, 13, 14, 15], 4, 16), &check);
     run_exhaustive(ctx, stats, "exh-0,255<=8", all_strings(&[0, 255], 8, 1), &check);
     run_exhaustive(ctx, stats, "exh-boundaries", boundary_strings(), &check);
-    let n = ctx.tier.pick(6_000, 200_000);
+    let n = ctx.tier.pick(24_000, 400_000);
     run_prop(ctx, stats, "random", n, strat(100_000), &check);
 }
 
